@@ -1,6 +1,5 @@
 """C12 — std.format / `%`: configuration + CPython as a second oracle."""
-import json, os, re, struct
-from fractions import Fraction
+import json, math, os, re, struct
 
 _SPEC_RE = re.compile(r"%(?:\((?P<key>[^)]*)\))?(?P<flags>[#0\- +]*)(?P<width>\*|\d*)(?:\.(?P<prec>\*|\d*))?(?P<len>[hlL]*)(?P<conv>.)", re.S)
 
@@ -13,9 +12,6 @@ def _pyval(v):
     if v["k"] == "str":
         return "".join(chr(c) for c in v["s"])
     return None
-
-
-_BEYOND = []   # filled by _in_domain: a float conversion with |v|*10^precision >= 2^53 was seen
 
 
 def _in_domain(fmt, vals):
@@ -80,47 +76,18 @@ def _in_domain(fmt, vals):
                 return None
             pp = 6 if p is None else p
             if pp > 308:
-                return None  # jrsonnet generates digits by scaling with 10^precision: above 308 an error
-            fx = Fraction(x)
+                return None  # jrsonnet limits float precisions to 308: above that an error
+            if x == 0 and math.copysign(1.0, x) < 0:
+                return None  # Jsonnet prints -0.0 without a sign (the sign test is `n < 0`)
             if conv in "gG":
                 pp = max(pp, 1)
-                if x == 0:
-                    e = 0
-                else:
-                    e = int(("%e" % abs(x)).split("e")[1])  # exact for our value set (checked below)
-                    if not (Fraction(10) ** e <= abs(fx) < Fraction(10) ** (e + 1)):
-                        return None
-                if e < 0:
-                    return None  # Jsonnet counts significant digits of |v|<1 from the units digit
-                if e >= pp:
-                    scale, digs = Fraction(10) ** (pp - 1 - e), pp - 1
-                else:
-                    scale, digs = Fraction(10) ** (pp - 1 - e), pp - 1 - e
-                # rounding must not carry into a new leading digit (CPython re-decides the form then)
-                if abs(fx) * scale + Fraction(1, 2) >= Fraction(10) ** pp:
-                    return None
-                scaled = abs(fx) * scale
-            elif conv in "eE":
-                if x == 0:
-                    e = 0
-                else:
-                    e = int(("%e" % abs(x)).split("e")[1])
-                    if not (Fraction(10) ** e <= abs(fx) < Fraction(10) ** (e + 1)):
-                        e = e - 1 if abs(fx) < Fraction(10) ** e else e + 1
-                scaled = abs(fx) / Fraction(10) ** e * Fraction(10) ** pp
-                if scaled + Fraction(1, 2) >= Fraction(10) ** (pp + 1):
-                    return None  # carry changes the exponent: Jsonnet's algorithm prints 10.0e+NN
-            else:
-                scaled = abs(fx) * Fraction(10) ** pp
-            # Jsonnet's algorithm (|v|*10^p + 0.5 in double arithmetic, round half up) and CPython
-            # (exact, round half even) agree away from ties and while |v|*10^p is exact in a double
-            if scaled >= 2 ** 53:
-                # beyond exact double arithmetic: CPython prints the exact expansion; a disagreement
-                # here is the finding c12_float_digits_inexact_beyond_2_53, not a new violation
-                _BEYOND.append(True)
-            frac = scaled - (scaled.numerator // scaled.denominator)
-            if abs(frac - Fraction(1, 2)) < Fraction(1, 10 ** 6):
-                return None
+                # decimal exponent of the value rounded to pp significant digits (C, Python and — since
+                # the repair — jrsonnet choose the form by it)
+                e = int(("%.*e" % (pp - 1, abs(x))).split("e")[1])
+                if -4 <= e < 0:
+                    return None  # fixed form of |v| < 1: Jsonnet counts significant digits from the units digit
+            # every other float conversion is in the common domain: exact digits, round half even,
+            # exponent of the rounded value — no exclusion for ties, carries or large magnitudes
             args.append(x)
     if i != len(vals):
         return None
@@ -129,11 +96,8 @@ def _in_domain(fmt, vals):
 
 def extra(root, out_dir, tier, seed, findings, cov):
     """CPython's `%` as a second oracle on the part of the domain where both languages agree."""
-    import sys
-    sys.path.insert(0, os.path.join(root, "checks"))
-    import classifiers as CL
     d = os.path.join(out_dir, "c12")
-    res, n, skipped, pyerr, bad, known, n_beyond = [], 0, 0, 0, [], {}, 0
+    res, n, skipped, pyerr, bad, n_float = [], 0, 0, 0, [], 0
     try:
         fin, fimp = open(os.path.join(d, "in.jsonl")), open(os.path.join(d, "impl.jsonl"))
     except OSError:
@@ -145,34 +109,20 @@ def extra(root, out_dir, tier, seed, findings, cov):
         fmt = op.get("_fmt")
         if fmt is None:
             continue
-        del _BEYOND[:]
         args = _in_domain(fmt, op["vals"])
         if args is None:
             skipped += 1
             continue
-        beyond = bool(_BEYOND)
         try:
             want = fmt % args
         except Exception:
             pyerr += 1
             continue
         n += 1
+        if (op.get("_tag") or "").startswith("float-digits"):
+            n_float += 1
         imp = json.loads(l2)
         got = "".join(chr(c) for c in imp["ok"]) if "ok" in imp else None
-        if beyond:
-            n_beyond += 1
-        if got != want and beyond:
-            imp2 = dict(imp, cpython=want, beyond_2_53=True)
-            hit = None
-            for f in findings:
-                if f.get("kind") == "finding" and f.get("property") == "C12":
-                    fn = getattr(CL, f["site"], None)
-                    if fn and fn(op, imp2, {}, f.get("args", {})):
-                        hit = f
-                        break
-            if hit:
-                known.setdefault(hit["site"], [hit, 0])[1] += 1
-                continue
         if got != want:
             bad.append((len(fmt) + len(args), {"fmt": fmt, "args": [repr(a) for a in args], "cpython": want,
                                                 "implementation": got if got is not None else imp, "via": op.get("via")}))
@@ -180,10 +130,7 @@ def extra(root, out_dir, tier, seed, findings, cov):
     cov["cpython_out_of_common_domain"] = skipped
     cov["cpython_raised"] = pyerr
     cov["cpython_disagreements"] = len(bad)
-    cov["cpython_compared_beyond_2_53"] = n_beyond
-    cov["cpython_known_finding_hits"] = {k: v[1] for k, v in known.items()}
-    for site, (f, k) in sorted(known.items()):
-        res.append(("known", None, f"KNOWN-FINDING: property=C12 {f['what']} [{site}; {k} case(s) this run, CPython oracle]"))
+    cov["cpython_compared_float_digit_cases"] = n_float
     if bad:
         bad.sort(key=lambda x: x[0])
         res.append(("violation", {"property": "C12", "kind": "cpython-disagrees",
@@ -194,17 +141,21 @@ def extra(root, out_dir, tier, seed, findings, cov):
 
 CFG = {
     "level": "proof",
-    "level_text": "Lean theorems about a model of format.rs prove, for all inputs: PARSER — the model of parse_codes/parse_code/try_parse_* equals the independently written reference grammar on EVERY format string, successes and the three error classes alike (parse_spec, parse_code_spec), and parsing the rendering of any well-formed element list gives the list back field by field (parse_roundtrip, parse_code_roundtrip); parsing fails only with truncated / unrecognised-conversion / width-too-large and never panics (parse_errors_only, conversion_char_spec). INTEGER conversions d i u o x X equal the reference printf text for every flag subset, width, precision and EVERY finite double, no i64 bound (int_conv_spec, int_conv_full; the former saturation finding is repaired). FLOAT conversions e E f F g G: everything after digit generation — sign, #, zero padding inside render_float or applied afterwards for %g, width, trailing-zero stripping, two-digit signed exponent, fixed/exponent form selection with the extracted threshold — equals the reference text for every flag subset, width, precision <= 308 and all digit data (float_conv_spec); a float precision above 308 is the error tooLarge for every value (float_precision_limit; the former u16-overflow finding is repaired). %s/%c/%% pad to the width in characters; %c is the reference for every value incl. negative numbers (pad_spec, percent_text, char_conv_spec; former NUL finding repaired). Values are consumed strictly left to right, each code seeing exactly its own window, %% consuming nothing, success implies the value count is exact (consumes_left_to_right, value_count_exact, too_few_is_error, too_many_is_error, percent_no_consume); text without % is copied unchanged (literal_copied, literal_elem_copied); object mode resolves %(key) incl. dotted paths, rejects `*` and key-less codes (obj_mode_spec); the conversion/flag/length-modifier tables, default precisions, %g threshold, exponent padding and the float precision limit with its guard are re-extracted from format.rs on every run (conv_table_spec, flag_table_spec). The model is tied to the code by an exhaustive differential run (flags 2^5 x widths x precisions x 15 conversions x values; every format string of length <= 4 over a 17-character alphabet, whose parse is compared FIELD BY FIELD through the Debug text of the real Vec<Element>; integer conversions of 16 numbers beyond the i64 range up to f64::MAX x flags x widths/precisions; float precision limit; %c of negative/fractional/huge numbers; argument-mode tables; seeded random strings; 1 in 16 also through `%`, std.format and std.mod from source; and a REACH family: 41 right operands of every type given bare — 0, -0, 0.0, -0.0, (1-1), (0*-1), integers, negative, fractional, huge numbers, strings, booleans, null, arrays, objects — x 42 format strings (two longer than the 100-byte rope threshold) + seeded random code x value, each through eleven entry points that must give the one reference answer: std_format(f, x), `f % x`, std.format(f, x), std.mod(f, x), `local f = .., v = ..; f % v`, `(f) % (x)`, `(f1 + f2) % x` with the format string cut in the middle, and the first four with the value wrapped as [x]) against both the model and the independent reference, and the implementation is additionally compared with CPython's `%` operator on ~1.4e5 cases of the common domain.",
-    "level_note": "Trusted: Lean kernel; the hand model of format.rs (validated by the correspondence run only); the digit oracle: double -> decimal digit generation of %e/%f/%g (mul_add/floor/%/log10/powf) is recomputed by the harness and handed to model and reference; float_conv_spec holds for all digit data satisfying OracleOK (parts below 2^1024, fraction < 10^precision) but says nothing about whether the digits are the right ones — that is observed against CPython only (away from ties, |v|*10^p < 2^53), and beyond 2^53 the digits are known to be noise (finding c12_float_digits_inexact_beyond_2_53). An exact dyadic model of the pipeline was not built. render_integer's limb-wise long division (integer_digits) is modelled at the level of the exact integer (repeated % radix, / radix); the limb arithmetic itself is validated by the big-number correspondence cases only. Number -> text of %s is an input (C05).",
-    "technique": "Lean 4 proof (parser = reference grammar for all strings + round trip, value threading, integer/float padding arithmetic, table equality) + exhaustive differential correspondence incl. field-by-field parse comparison + CPython as second oracle",
+    "level_text": "Lean theorems about a model of format.rs prove, for all inputs: PARSER — the model of parse_codes/parse_code/try_parse_* equals the independently written reference grammar on EVERY format string, successes and the three error classes alike (parse_spec, parse_code_spec), and parsing the rendering of any well-formed element list gives the list back field by field (parse_roundtrip, parse_code_roundtrip); parsing fails only with truncated / unrecognised-conversion / width-too-large and never panics (parse_errors_only, conversion_char_spec). INTEGER conversions d i u o x X equal the reference printf text for every flag subset, width, precision and EVERY finite double, no i64 bound (int_conv_spec, int_conv_full; the former saturation finding is repaired). FLOAT conversions e E f F g G equal the reference text for EVERY finite double, flag subset, width and precision <= 308, where the reference (FormatSpec.fixDigits / sciDigits) is the EXACT decimal expansion of the double, correctly rounded half-even to the precision, written in integer arithmetic on |v|*2^1074 — digits, exponent of the rounded value (two digits at least, signed), %g form chosen by that exponent with the extracted threshold, sign, #, zero padding inside render_float_digits or applied afterwards for %g, trailing-zero stripping, width (float_conv_spec, float_conv_full; the former finding c12_float_digits_inexact_beyond_2_53 is repaired: the code now delegates digit generation to Rust's float formatting, and the theorem assumes that library returns the exact correctly rounded expansion — RustFmtExact, validated on every run against the Lean exact reference); what the code does with the returned text is right for ALL digit data whether or not they are the digits of the number (float_layout_fixed, float_layout_sci); every finite bit pattern is within the bound of these theorems (ofBits_finite); the reference's rounding is a nearest integer with ties to even and its digit data recompose to the rounded value (round_half_even_nearest, fix_digits_recompose), and its scientific notation is normalised for every non-zero finite double — one leading digit 1..9, i.e. the reference exponent is the exponent of the rounded value (sci_digits_normalised); a float precision above 308 is the error tooLarge for every value (float_precision_limit; the former u16-overflow finding is repaired). %s/%c/%% pad to the width in characters; %c is the reference for every value incl. negative numbers (pad_spec, percent_text, char_conv_spec; former NUL finding repaired). Values are consumed strictly left to right, each code seeing exactly its own window, %% consuming nothing, success implies the value count is exact (consumes_left_to_right, value_count_exact, too_few_is_error, too_many_is_error, percent_no_consume); text without % is copied unchanged (literal_copied, literal_elem_copied); object mode resolves %(key) incl. dotted paths, rejects `*` and key-less codes (obj_mode_spec); the conversion/flag/length-modifier tables, default precisions, %g threshold, exponent padding, the float precision limit with its guard and the two format strings handed to Rust's float formatting ({:.*} and {:.*e}, with the bodies of float_digits / float_sci_digits) are re-extracted from format.rs on every run (conv_table_spec, flag_table_spec, rust_float_calls_spec). The model is tied to the code by an exhaustive differential run (flags 2^5 x widths x precisions x 15 conversions x values; every format string of length <= 4 over a 17-character alphabet, whose parse is compared FIELD BY FIELD through the Debug text of the real Vec<Element>; integer conversions of 16 numbers beyond the i64 range up to f64::MAX x flags x widths/precisions; float precision limit; %c of negative/fractional/huge numbers; argument-mode tables; seeded random strings; FLOAT DIGITS: ~3000 boundary-heavy doubles (every 13th power of two with both neighbours — every one in the thorough tier —, powers of ten with neighbours and carry cases, subnormals, max finite, -0, exact ties t/2^(p+1) of every precision 0..20 and ties of the exponent form with both neighbours, random bit patterns) x e/E/f/F/g/G x 12 width/precision forms (precisions up to 308) x rotating flag forms; 1 in 16 also through `%`, std.format and std.mod from source) against both the model and the independent reference, and the implementation is additionally compared with CPython's `%` operator on ~3.4e5 cases of the common domain (float conversions without exclusion of ties, carries or large magnitudes). The assumption about Rust's float formatting is validated by op fmt.digits: format!(\"{:.*}\") / format!(\"{:.*e}\") on the same doubles at precisions 0..21, 30, 50, 100, 308 (some at 400, 767, 1074, 1075, 1100) against the Lean exact reference (~7e4 comparisons quick). REACH family: 41 right operands of every type given bare — 0, -0, 0.0, -0.0, (1-1), (0*-1), integers, negative, fractional, huge numbers, strings, booleans, null, arrays, objects — x 42 format strings (two longer than the 100-byte rope threshold) + seeded random code x value, each through eleven entry points that must give the one reference answer: std_format(f, x), `f % x`, std.format(f, x), std.mod(f, x), `local f = .., v = ..; f % v`, `(f) % (x)`, `(f1 + f2) % x` with the format string cut in the middle, and the first four with the value wrapped as [x]) against both the model and the independent reference, and the implementation is additionally compared with CPython's `%` operator on ~1.4e5 cases of the common domain.",
+    "level_note": "Trusted: Lean kernel; the hand model of format.rs (validated by the correspondence run only); Rust's float formatting (core::fmt::float / flt2dec: format!(\"{:.*}\", p, x), format!(\"{:.*e}\", p, x)), to which the repaired code delegates double -> decimal digit generation: it is NOT modelled — its answers are parameters of the model (Num.rfix / Num.rsci) and float_conv_spec assumes RustFmtExact: for every precision <= 308 the returned text is the plain / scientific notation of the exact decimal expansion of the double correctly rounded half-even (FormatSpec.rustFixed / rustSci). That assumption is compared with the Lean exact reference on every run (op fmt.digits, boundary-heavy doubles) and, through std_format, with CPython; it is not proved. The harness obtains the texts handed to the model with the very format! calls of float_digits / float_sci_digits (re-extracted from the source; a changed call is an extraction error). render_integer's limb-wise long division (integer_digits) is modelled at the level of the exact integer (repeated % radix, / radix); the limb arithmetic itself is validated by the big-number correspondence cases only. Number -> text of %s is an input (C05).",
+    "technique": "Lean 4 proof (parser = reference grammar for all strings + round trip, value threading, integer padding arithmetic, float conversions against an exact integer-arithmetic reference under an explicit, run-time validated assumption about Rust's float formatting, table equality) + exhaustive differential correspondence incl. field-by-field parse comparison + CPython as second oracle",
     "engines": ["c12"],
     "assumptions": [
-        "reference = Python %-formatting as adopted by Jsonnet's std.format: %#o writes a leading 0 (not 0o), %s ignores precision, %% honours flags/width, doubles are truncated toward zero by integer conversions (also %x, where upstream std.jsonnet floors), parse errors precede value errors, %g counts significant digits of |v|<1 from the units digit, widths/precisions above 65535 are an error, float precisions above 308 are an error (10^precision must be a finite double), %c of a number <= -1 is an invalid-code-point error",
-        "digit generation of %e/%f/%g (the float pipeline) is an oracle input to model and reference; it is compared with CPython only where |v|*10^precision < 2^53, away from rounding ties and (for %g) for |v| >= 1 without carry; where |v|*10^precision >= 2^53 CPython is compared too and a disagreement limited to digits after the 15th significant one is the listed finding",
+        "reference = Python %-formatting as adopted by Jsonnet's std.format: %#o writes a leading 0 (not 0o), %s ignores precision, %% honours flags/width, doubles are truncated toward zero by integer conversions (also %x, where upstream std.jsonnet floors), parse errors precede value errors, %g counts significant digits of |v|<1 from the units digit, widths/precisions above 65535 are an error, float precisions above 308 are an error (limit kept from the time digits were generated by scaling with 10^precision), %c of a number <= -1 is an invalid-code-point error",
+        "ASSUMPTION RustFmtExact (Proofs/FormatExact.lean): for every finite double x and precision q <= 308, format!(\"{:.*}\", q, x.abs()) is `ddd.ddd` (`ddd` for q = 0) and format!(\"{:.*e}\", q, x.abs()) is `d.ddde-7` (exponent without + or padding) of the EXACT decimal expansion of x correctly rounded, ties to even, to q places / q+1 significant digits; the float theorems hold under it; validated, not proved: compared on every run with the Lean exact reference (op fmt.digits) on powers of two and ten with neighbours, subnormals, max finite, exact ties at every precision 0..20, random bit patterns",
+        "float reference = C/Python semantics on the exact value: round half even, exponent of the rounded value, %g form by that exponent; adopted Jsonnet deviations: the fixed form of %g prints max(p,1) - max(1, X+1) decimals (for |v| < 1 significant digits are counted from the units digit), -0.0 has no sign; CPython is compared on all float cases except those two and precisions above 308",
         "the text of a non-string value under %s (Val::to_string) is an input",
-        "float precisions explored: <= 9 in the cross product, 0..7 elsewhere, 308 with the value 0, 309/310/400/65535 for the error path; |v|*10^precision overflowing to infinity (\"%f\" % 1e308, \"%.308f\" % 3) is C04's finding c04_float_conversion_of_huge_number_debug_assert and is not explored here",
+        "float precisions explored: <= 9 in the cross product, 0..7 elsewhere, none/0/1/2/3/5/10/15/17/20/40/308 on the boundary doubles, 308 and 309/310/400/65535 (error path) on the limit cases; Rust's formatter itself also at 400/767/1074/1075/1100",
         "a bare non-array, non-object right operand x means the argument list [x] (std_format's `o => format_arr(str, &[o])`); the reference answers `f % x`, std.mod(f, x), std.format(f, x) and their [x] forms from the same op; negative zero formats as zero without sign (sign from n < 0, as in std.jsonnet) except under %s, whose text is an input — CPython, which prints -0.0, is therefore not consulted on the REACH family's scalar operands",
         "format strings are modelled as code-point lists (the parser only inspects and slices at ASCII bytes)",
+    ],
+    "trusted_extra": [
+        "Rust's float formatting (core::fmt::float, flt2dec) returns the exact decimal expansion of a double, correctly rounded half-even (assumption RustFmtExact; compared with the Lean exact reference on boundary-heavy doubles every run)",
     ],
     "timeout": 3000,
     "extra": extra,
